@@ -441,6 +441,43 @@ def maps(ctx):
         return None
     A.require('CoreDocumentData::try_map/each-field-through-its-own-map', paths, r_cd, replay=RB)
 
+    # CoreDocument::try_map / map_unchecked hand their four functions to the data's try_map in the same roles
+    ORDER = ['id_update', 'controller_update', 'methods_update', 'service_update']
+    f = prog.one(r'core_document::<impl at [^>]*>::try_map$', sig=r'^CoreDocument,')
+    paths, ex = A.paths(f)
+
+    def r_fw(p):
+        if p.kind != 'return':
+            return 'panic ' + p.msg
+        tm = [c for c in p.calls if re.search(r'CoreDocumentData::try_map$', c.name)]
+        if len(tm) != 1 or not mentions(tm[0].args[0], r'^self$'):
+            return 'the data of this document is not mapped exactly once'
+        got = [strip(a) for a in tm[0].args[1:5]]
+        if got != [('leaf', n) for n in ORDER]:
+            return 'update functions forwarded in other roles: %s' % [term_str(g) for g in got]
+        if p.is_ok():
+            cv = [c for c in p.calls if re.search(r'<CoreDocument as TryFrom<CoreDocumentData>>::try_from$', c.name) and p.took(c, 'Ok')]
+            if not cv or strip(cv[0].args[0]) != ('field', tm[0].ret, 0, 'Ok') or strip(p.term(p.payload())) != ('field', cv[0].ret, 0, 'Ok'):
+                return 'the mapped data does not come back through the checked constructor'
+        return None
+    A.require('CoreDocument::try_map/forwards-the-four-functions-in-their-roles', paths, r_fw, replay=RB)
+
+    f = prog.one(r'core_document::<impl at [^>]*>::map_unchecked$')
+    paths, ex = A.paths(f)
+
+    def r_mu(p):
+        if p.kind != 'return':
+            return None   # the infallible expect
+        tm = [c for c in p.calls if re.search(r'CoreDocumentData::try_map$', c.name)]
+        if len(tm) != 1:
+            return 'the data of this document is not mapped exactly once'
+        for a, n in zip(tm[0].args[1:5], ORDER):
+            caps = [x for x in term_leaves(a) if x in ORDER]
+            if caps != [n]:
+                return 'the %s slot is fed with a closure over %s' % (n, caps)
+        return None
+    A.require('CoreDocument::map_unchecked/forwards-the-four-functions-in-their-roles', paths, r_mu, replay=RB)
+
 
 def main(ctx):
     prog, info = load(CRATES)
